@@ -77,18 +77,18 @@ MUST_REACH = ['debian.debfile:DebFile.__init__', 'debian.debfile:DebPart.tgz', '
 PKGS = {'quick': 2000, 'thorough': 120000}          # TOTAL package cases per tier
 RANDOM_SETS = {'quick': 2000, 'thorough': 200000}   # TOTAL seeded larger member multisets per tier
 
-FLOORS = {
-    'quick': {'nontrivial': 500,
-              'monitors': {'M.pkg': 700, 'M.query': 15000, 'M.accept': 10000, 'M.reject': 8000, 'M.accepted-served': 600},
-              'counters': {'set:sibling-decides:plain-first': 100, 'set:sibling-decides:compressed-first': 100,
-                           'name:leading-dot': 100, 'name:space': 300, 'name:subdir': 300,
-                           'open:filename': 100, 'ar-style:gnu': 100}},
-    'thorough': {'nontrivial': 20000,
-                 'monitors': {'M.pkg': 30000, 'M.query': 600000, 'M.accept': 40000, 'M.reject': 30000,
-                              'M.accepted-served': 4000},
-                 'counters': {'set:sibling-decides:plain-first': 100, 'set:sibling-decides:compressed-first': 100,
-                              'name:leading-dot': 4000, 'name:space': 12000, 'name:subdir': 12000,
-                              'open:filename': 4000, 'ar-style:gnu': 4000}},
+FLOORS = {   # ~50% of what a run on the unchanged tree measures (seed 0)
+    'quick': {'nontrivial': 800,
+              'monitors': {'M.pkg': 1000, 'M.query': 30000, 'M.accept': 10000, 'M.reject': 9000, 'M.accepted-served': 400},
+              'counters': {'set:sibling-decides:plain-first': 300, 'set:sibling-decides:compressed-first': 300,
+                           'name:leading-dot': 900, 'name:leading-dot-first-component': 400, 'name:space': 900,
+                           'name:subdir': 2000, 'open:filename': 600, 'ar-style:gnu': 3000}},
+    'thorough': {'nontrivial': 45000,
+                 'monitors': {'M.pkg': 60000, 'M.query': 1900000, 'M.accept': 100000, 'M.reject': 70000,
+                              'M.accepted-served': 35000},
+                 'counters': {'set:sibling-decides:plain-first': 7000, 'set:sibling-decides:compressed-first': 7000,
+                              'name:leading-dot': 60000, 'name:leading-dot-first-component': 30000, 'name:space': 60000,
+                              'name:subdir': 130000, 'open:filename': 18000, 'ar-style:gnu': 55000}},
 }
 
 COMP = ['', 'gz', 'bz2', 'xz', 'lzma']
@@ -605,6 +605,13 @@ def cases(ctx):
             r = ctx.rng('dpkgdeb', j)
             case = gen_pkg(r, j, r.choice(['', 'gz', 'xz']), COMP[j % 5])
             case['ar'] = {'order': ['info', 'control', 'data'], 'style': 'bare', 'hdr': []}
+            # dpkg-deb validates the MEANING of control fields; the random values above are deb822-valid
+            # but not policy-valid, so this sanity case carries a policy-valid paragraph
+            case['fields'] = [['Package', 'pkg%d' % j], ['Version', '2:0.9~rc1+dfsg-3'], ['Architecture', 'all'],
+                              ['Maintainer', 'Zo\u00eb \u00dcn\u00ef <z@example.org>'], ['Installed-Size', '12'],
+                              ['Depends', 'libc6 (>= 2.34), foo | bar'], ['Section', 'utils'], ['Priority', 'optional'],
+                              ['Description', 'short text\n long line one\n .\n  indented']]
+            case['ctl_final_nl'] = True
             case['kind'] = 'dpkgdeb'
             yield case
 
@@ -1073,11 +1080,11 @@ def conclusive(tier, counters, monitor_evals, extra):
     return None
 
 
-LEVEL_TEXT = ('Runtime monitoring: 1.4e3 (quick) / 6e4 (thorough) harness-assembled .deb packages (own ar writer + stdlib '
+LEVEL_TEXT = ('Runtime monitoring: 2e3 (quick) / 1.2e5 (thorough) harness-assembled .deb packages (own ar writer + stdlib '
               'tarfile; all 25 control x data compression pairs every run; permuted member order; fileobj= and filename= '
               'mode) are read back through the live DebFile and every answer - debcontrol(), scripts(), md5sums() with '
               'bytes and text keys, has_file/get_content/get_file/in/[] under the spellings name, ./name, /name, plus '
-              'never-packed names - is compared with the packing description; ~2e4 (quick) / ~8e4 (thorough) member-name '
+              'never-packed names - is compared with the packing description; ~2e4 (quick) / ~2.2e5 (thorough) member-name '
               'sequences (complete enumerations of the small ones) are checked against the acceptance predicate, '
               'demanding DebError and nothing else for defective ones.  Held-on-observed, not a proof.')
 LEVEL_NOTE = ('Trusted: CPython tarfile/gzip/bz2/lzma, vp.models.arwriter (cross-checked with dpkg-deb and ar in the thorough '
